@@ -117,4 +117,59 @@ theorem C15_bt_table (l : List Rat) (hpos : ∀ x ∈ l, 0 < x) :
 example : powProd [2, 1, 1] = 4 ∧ pairProd [2, 1, 1] * pairSumProd [2, 1, 1] = 4 ∧
     pairSumProd [1, 2, 1] = pairSumProd [2, 1, 1] := by decide +kernel
 
+/-! ### combining the slate intervals of a bloc -/
+
+/-- the entries `combine_preference_intervals` normalises: every interval scaled by its share -/
+def scaledEntries (ivs : List Interval) (props : List Rat) : List (Cand × Rat) :=
+  (ivs.zip props).flatMap (fun ip => ip.1.interval.map (fun cs => (cs.1, cs.2 * ip.2)))
+
+/-- **The combined interval.** Every candidate's combined support is its own support times its
+slate's share, divided by the total of all such products with a positive value; the result sums to
+one and zero-valued products are set aside. -/
+theorem C15_combine (ivs : List Interval) (props : List Rat) (iv : Interval)
+    (h : combineIntervals ivs props = .ok iv) :
+    iv.interval = ((scaledEntries ivs props).filter (fun cs => decide (0 < cs.2))).map
+      (fun cs => (cs.1, cs.2 / rsum (((scaledEntries ivs props).filter (fun cs => decide (0 < cs.2))).map (·.2)))) ∧
+    rsum (iv.interval.map (·.2)) = 1 := by
+  unfold combineIntervals at h
+  simp only [bind, Outcome.bind] at h
+  cases hm : mkInterval ((ivs.zip props).flatMap (fun ip => ip.1.interval.map (fun cs => (cs.1, cs.2 * ip.2)))) with
+  | ok r =>
+    rw [hm] at h
+    simp only [pure] at h
+    injection h with h
+    subst h
+    have hn := C15_normalize _ r hm
+    refine ⟨?_, hn.1⟩
+    unfold mkInterval at hm
+    simp only [] at hm
+    split at hm; · cases hm
+    injection hm with hm
+    subst hm
+    rfl
+  | raised e => rw [hm] at h; cases h
+  | oracleMismatch => rw [hm] at h; cases h
+  | outOfFuel => rw [hm] at h; cases h
+
+/-- when every slate interval sums to one, the scaled entries add up to the shares: each slate
+contributes exactly its share of the bloc's support before the final normalisation -/
+theorem C15_scaled_total (ivs : List Interval) (props : List Rat) (hl : ivs.length = props.length)
+    (h1 : ∀ iv ∈ ivs, rsum (iv.interval.map (·.2)) = 1) :
+    rsum ((scaledEntries ivs props).map (·.2)) = rsum props := by
+  unfold scaledEntries
+  induction ivs generalizing props with
+  | nil =>
+    cases props with
+    | nil => simp
+    | cons _ _ => simp at hl
+  | cons iv rest ih =>
+    cases props with
+    | nil => simp at hl
+    | cons q qs =>
+      simp only [List.zip_cons_cons, List.flatMap_cons, List.map_append, rsum_append, List.map_map,
+        Function.comp_def, rsum_cons]
+      rw [ih qs (by simpa using hl) (fun iv' hiv' => h1 iv' (by simp [hiv']))]
+      have := h1 iv (by simp)
+      rw [rsum_map_mul_right, this]; ring
+
 end VK
